@@ -1,10 +1,13 @@
 /-
 C03W — the closed-world "no lost wake-up" invariant: definitions.
 
-* `S1 w`      : the (decidable) static scope of stage S1.
+* `SC w`      : the (decidable) static scope of the machinery (stage A: processors may declare
+                resource requirements; stage B: batchers, batches; stage C: the devices of one
+                group); `S1 w` : the scope of stage S1 (no requirement declared, no batch, no group).
 * `holdsD`, `dueD`, `expiredD`, `ready` : which device holds a part that wants to leave.
 * `wouldAccept`, `wouldAcceptN` : the pure acceptance predicate (with a mask `N` of devices whose
-  notification is still pending).
+  notification is still pending and a mask `A` of batchers that have just notified); both thread
+  the group-path stack of the part (`wouldAcceptT`, `wouldAcceptS`).
 * `Att`, `Blocked`, `WakeG`, `G` : the invariant (generalised by a set `E` of exempt devices and a
   set `N` of devices with a pending notification).
 -/
@@ -31,10 +34,14 @@ def stat1 (d : Dev) : Dev :=
 @[simp] theorem stat1_default : stat1 default = default := rfl
 @[simp] theorem stat1_stat1 (d : Dev) : stat1 (stat1 d) = stat1 d := rfl
 
-/-- The static world: static devices, scripts, which device a maintenance target shuts down. -/
+/-- The static world: static devices, scripts, which device a maintenance target shuts down, the
+group table. -/
 def sw (w : World) : World :=
   { devs := w.devs.map stat1, scripts := w.scripts,
-    targets := w.targets.map (fun t => ({ dev := t.dev } : Target)) }
+    targets := w.targets.map (fun t => ({ dev := t.dev } : Target)), groups := w.groups }
+
+theorem sw_groups {w w' : World} (h : sw w' = sw w) : w'.groups = w.groups := by
+  have := congrArg World.groups h; exact this
 
 theorem sw_dev (w : World) (x : Nat) : (sw w).dev x = stat1 (w.dev x) := by
   unfold World.dev sw
@@ -69,19 +76,85 @@ theorem sw_cap : (w'.dev x).cap = (w.dev x).cap := by
   have := congrArg Dev.cap (sw_stat h x); exact this
 theorem sw_resReq : (w'.dev x).resReq = (w.dev x).resReq := by
   have := congrArg Dev.resReq (sw_stat h x); exact this
+theorem sw_group : (w'.dev x).group = (w.dev x).group := by
+  have := congrArg Dev.group (sw_stat h x); exact this
 end statfields
 
 /-! ### the scope S1 -/
 
-def kindOK : Kind → Bool
+/-- the kinds of stage S1 -/
+def kindOK1 : Kind → Bool
   | .source | .handler | .processor | .buffer | .gate | .sink => true
   | _ => false
+
+/-- the kinds of the machinery's scope: all -/
+def kindOK : Kind → Bool := fun _ => true
+
+theorem kindOK_of_kindOK1 {k : Kind} (_ : kindOK1 k = true) : kindOK k = true := rfl
+
+/-! ### groups and flow controllers -/
+
+/-- the group input / output / paths of the group device `x` belongs to -/
+def groupIn (w : World) (x : Nat) : Nat := (w.groups.getD (w.dev x).group default).input
+def groupOut (w : World) (x : Nat) : Nat := (w.groups.getD (w.dev x).group default).output
+def groupPaths (w : World) (x : Nat) : List Nat := (w.groups.getD (w.dev x).group default).paths
+
+/-- pass-through flow controllers -/
+def isCtrl : Kind → Bool
+  | .gate | .gpath | .ginput | .goutput => true
+  | _ => false
+
+/-- where a controller may pass an offer on to (for a group output: the downstream devices of ALL
+paths of its group — which one is used depends on the part) -/
+def csucc (w : World) (x : Nat) : List Nat :=
+  match (w.dev x).kind with
+  | .gate | .ginput => (w.dev x).down
+  | .gpath => [groupIn w x]
+  | .goutput => (groupPaths w x).flatMap (fun g => (w.dev g).down)
+  | _ => []
+
+/-- recursion levels the notification dispatch spends on the way back through a controller -/
+def ccost : Kind → Nat
+  | .gate | .ginput => 2
+  | .gpath => 1
+  | .goutput => 3
+  | _ => 0
+
+/-- every chain of controllers starting at `x` ends within `n` controllers and costs the
+notification dispatch at most `b` recursion levels -/
+def costLe : Nat → World → Nat → Nat → Bool
+  | 0, w, _, x => !isCtrl (w.dev x).kind
+  | n + 1, w, b, x =>
+    !isCtrl (w.dev x).kind ||
+      (decide (ccost (w.dev x).kind ≤ b) && (csucc w x).all (fun z => costLe n w (b - ccost (w.dev x).kind) z))
+
+/-- `x` is `y` or is reached from `y` through a chain of controllers. -/
+def cReach : Nat → World → Nat → Nat → Bool
+  | 0, _, y, x => y == x
+  | f + 1, w, y, x => y == x || (isCtrl (w.dev y).kind && (csucc w y).any (fun z => cReach f w z x))
+
+/-- the group records are consistent: the input / output of the group of a group path are a group
+input / group output of that group, the path is registered; a group input has no upstream
+neighbour (it is reached through group paths only); there is one group only: every group path
+leads out through every (that is: the) group output -/
+def GroupOK (w : World) (x : Nat) : Prop :=
+  -- all group paths lead out through the same group output: ONE group (shared by its paths)
+  ((w.dev x).kind = .gpath → ∀ go ∈ List.range w.devs.length, (w.dev go).kind = .goutput →
+    groupOut w x = go) ∧
+  ((w.dev x).kind = .gpath →
+    groupIn w x < w.devs.length ∧ (w.dev (groupIn w x)).kind = .ginput ∧
+    (w.dev (groupIn w x)).group = (w.dev x).group ∧
+    groupOut w x < w.devs.length ∧ (w.dev (groupOut w x)).kind = .goutput ∧
+    (w.dev (groupOut w x)).group = (w.dev x).group ∧ x ∈ groupPaths w x) ∧
+  ((w.dev x).kind = .ginput → (w.dev x).up = [])
+
+instance (w : World) (x : Nat) : Decidable (GroupOK w x) := by unfold GroupOK; infer_instance
 
 /-- A callback that leaves the part alone (it may change cycle time / offset of the device). -/
 def cbPure (c : PartCb) : Bool := c.addValue == 0 && c.setQuality.isNone
 
 def DevOK (d : Dev) : Prop :=
-  kindOK d.kind = true ∧ d.resReq.isNone = true ∧ (∀ c ∈ d.recvCbs, cbPure c = true) ∧
+  kindOK1 d.kind = true ∧ d.resReq.isNone = true ∧ (∀ c ∈ d.recvCbs, cbPure c = true) ∧
     (∀ c ∈ d.finCbs, cbPure c = true) ∧ d.genBatch = 0 ∧ (d.kind = .buffer → 0 ≤ d.delay) ∧
     (d.kind = .source → d.up = [])
 
@@ -165,7 +238,259 @@ instance (w : World) : Decidable (S1 w) := by unfold S1; infer_instance
 theorem S1.of_sw {w w' : World} (h : S1 w) (e : sw w' = sw w) (hp : PartsLeaf w') : S1 w' :=
   ⟨by rw [e]; exact h.1, hp⟩
 
-/-! ### extraction of facts from `S1` -/
+/-! ### the scope of the machinery: S1 plus processors WITH resource requirements -/
+
+/-- some device declares a resource requirement -/
+def hasRes (w : World) : Bool := w.devs.any (fun d => d.resReq.isSome)
+
+/-- a declared requirement has no negative amount -/
+def reqNN (d : Dev) : Prop := ∀ r ∈ d.resReq.toList, ∀ e ∈ r, 0 ≤ e.2
+
+instance (d : Dev) : Decidable (reqNN d) := by unfold reqNN; infer_instance
+
+/-- `DevOK` for the machinery's scope: batchers are allowed, sources may generate batches, a
+declared requirement has no negative amount. -/
+def DevOKc (d : Dev) : Prop :=
+  kindOK d.kind = true ∧ reqNN d ∧ (∀ c ∈ d.recvCbs, cbPure c = true) ∧
+    (∀ c ∈ d.finCbs, cbPure c = true) ∧ (d.kind = .buffer → 0 ≤ d.delay) ∧
+    (d.kind = .source → d.up = [])
+
+instance (d : Dev) : Decidable (DevOKc d) := by unfold DevOKc; infer_instance
+
+/-- Scripted operations of the machinery's scope: as `OpS1`; in a world with resource requirements
+no script registers a waiting request of its own (`register`). -/
+def OpSC (w : World) : Op → Prop
+  | .rewire _ _ => False
+  | .create _ => False
+  | .pause a => ∀ d ∈ w.devs, d.aid ≠ a
+  | .unpause a => ∀ d ∈ w.devs, d.aid ≠ a
+  | .cancel a => ∀ d ∈ w.devs, d.aid ≠ a
+  | .register _ _ => hasRes w = false
+  | _ => True
+
+instance (w : World) (op : Op) : Decidable (OpSC w op) := by
+  cases op <;> (simp only [OpSC]; infer_instance)
+
+/-- The static conditions of the machinery's scope (a function of `sw w` only). -/
+structure SCs (w : World) : Prop where
+  devOK : ∀ d ∈ w.devs, DevOKc d
+  wiring : ∀ x ∈ List.range w.devs.length,
+    (∀ u ∈ (w.dev x).up, u < w.devs.length ∧ x ∈ (w.dev u).down) ∧
+    (∀ y ∈ (w.dev x).down, y < w.devs.length ∧ x ∈ (w.dev y).up)
+  aids : (w.devs.map (·.aid)).Nodup
+  gates : ∀ x ∈ List.range w.devs.length,
+    costLe w.devs.length w (2 * w.devs.length + 1) x = true ∧
+    (∀ y ∈ (w.dev x).down, cReach w.devs.length w y x = false) ∧ GroupOK w x
+  targets : ∀ t ∈ w.targets, ∀ d ∈ t.dev.toList, (w.dev d).kind = .processor
+  scripts : ∀ l ∈ w.scripts, ∀ op ∈ l, OpSC w op
+
+instance (w : World) : Decidable (SCs w) :=
+  decidable_of_iff
+    ((∀ d ∈ w.devs, DevOKc d) ∧
+     (∀ x ∈ List.range w.devs.length,
+        (∀ u ∈ (w.dev x).up, u < w.devs.length ∧ x ∈ (w.dev u).down) ∧
+        (∀ y ∈ (w.dev x).down, y < w.devs.length ∧ x ∈ (w.dev y).up)) ∧
+     (w.devs.map (·.aid)).Nodup ∧
+     (∀ x ∈ List.range w.devs.length,
+        costLe w.devs.length w (2 * w.devs.length + 1) x = true ∧
+        (∀ y ∈ (w.dev x).down, cReach w.devs.length w y x = false) ∧ GroupOK w x) ∧
+     (∀ t ∈ w.targets, ∀ d ∈ t.dev.toList, (w.dev d).kind = .processor) ∧
+     (∀ l ∈ w.scripts, ∀ op ∈ l, OpSC w op))
+    ⟨fun ⟨a, b, c, d, e, f⟩ => ⟨a, b, c, d, e, f⟩, fun ⟨a, b, c, d, e, f⟩ => ⟨a, b, c, d, e, f⟩⟩
+
+/-- **The scope of the machinery** (stages A, B, C): as `S1`, but processors may declare resource
+requirements (without negative amounts; in that case no script uses `register`), batchers are
+allowed, sources may generate batches, parts may be batches, and the devices of ONE group (any
+number of group paths sharing one group input and one group output, `GroupOK`) are allowed. -/
+def SC (w : World) : Prop := SCs (sw w)
+
+instance (w : World) : Decidable (SC w) := by unfold SC; infer_instance
+
+theorem SC.of_sw {w w' : World} (h : SC w) (e : sw w' = sw w) : SC w' := by
+  unfold SC; rw [e]; exact h
+
+/-- no batcher, no source that generates batches, no group device -/
+def NoBatch (w : World) : Prop :=
+  ∀ d ∈ w.devs, d.kind ≠ .batcher ∧ d.genBatch = 0 ∧ d.kind ≠ .gpath ∧ d.kind ≠ .ginput ∧
+    d.kind ≠ .goutput
+
+instance (w : World) : Decidable (NoBatch w) := by unfold NoBatch; infer_instance
+
+theorem noBatch_sw (w : World) : NoBatch (sw w) ↔ NoBatch w := by
+  unfold NoBatch sw
+  simp only [List.mem_map]
+  constructor
+  · intro h d hd; exact h (stat1 d) ⟨d, hd, rfl⟩
+  · rintro h d ⟨d0, hd0, rfl⟩; exact h d0 hd0
+
+theorem noBatch_of_sw {w w' : World} (e : sw w' = sw w) : NoBatch w' ↔ NoBatch w := by
+  rw [← noBatch_sw, ← noBatch_sw w, e]
+
+theorem hasRes_sw (w : World) : hasRes (sw w) = hasRes w := by
+  unfold hasRes sw
+  simp only [List.any_map]
+  rfl
+
+theorem hasRes_of_sw {w w' : World} (e : sw w' = sw w) : hasRes w' = hasRes w := by
+  rw [← hasRes_sw, ← hasRes_sw w, e]
+
+theorem devOKc_of_devOK {d : Dev} (h : DevOK d) : DevOKc d := by
+  refine ⟨kindOK_of_kindOK1 h.1, ?_, h.2.2.1, h.2.2.2.1, h.2.2.2.2.2⟩
+  intro r hr
+  have := h.2.1
+  cases hq : d.resReq with
+  | none => rw [hq] at hr; cases hr
+  | some q => rw [hq] at this; cases this
+
+theorem hasRes_false_iff (w : World) : hasRes w = false ↔ ∀ d ∈ w.devs, d.resReq.isNone = true := by
+  unfold hasRes
+  rw [List.any_eq_false]
+  constructor
+  · intro h d hd
+    have := h d hd
+    cases hr : d.resReq with
+    | none => rfl
+    | some r => rw [hr] at this; simp at this
+  · intro h d hd
+    have := h d hd
+    cases hr : d.resReq with
+    | none => simp
+    | some r => rw [hr] at this; cases this
+
+theorem opSC_of_opS1 {w : World} {op : Op} (h : OpS1 w op) (hn : hasRes w = false) : OpSC w op := by
+  cases op <;> simp only [OpS1, OpSC] at h ⊢ <;> first | exact h | exact hn
+
+theorem opS1_of_opSC {w : World} {op : Op} (h : OpSC w op) : OpS1 w op := by
+  cases op <;> simp only [OpS1, OpSC] at h ⊢ <;> first | exact h | trivial
+
+theorem kindOK1_of {k : Kind} (hb : k ≠ .batcher) (h1 : k ≠ .gpath) (h2 : k ≠ .ginput)
+    (h3 : k ≠ .goutput) : kindOK1 k = true := by
+  cases k <;>
+    first | rfl | exact absurd rfl hb | exact absurd rfl h1 | exact absurd rfl h2 | exact absurd rfl h3
+
+/-! ### without group devices the controller conditions are the gate conditions of S1 -/
+
+/-- no group device -/
+def NoGrp (v : World) : Prop :=
+  ∀ x, (v.dev x).kind ≠ .gpath ∧ (v.dev x).kind ≠ .ginput ∧ (v.dev x).kind ≠ .goutput
+
+theorem isCtrl_noGrp {v : World} (hg : NoGrp v) (x : Nat) :
+    isCtrl (v.dev x).kind = ((v.dev x).kind == .gate) := by
+  have := hg x
+  cases hk : (v.dev x).kind <;> simp_all [isCtrl]
+
+theorem csucc_gate {v : World} {x : Nat} (hk : (v.dev x).kind = .gate) : csucc v x = (v.dev x).down := by
+  unfold csucc; rw [hk]
+
+theorem costLe_of_gateDepthLe {v : World} (hg : NoGrp v) : ∀ f b x, gateDepthLe f v x = true →
+    2 * f ≤ b → costLe f v b x = true := by
+  intro f
+  induction f with
+  | zero =>
+    intro b x h _
+    simp only [gateDepthLe, bne_iff_ne, ne_eq] at h
+    simp only [costLe, isCtrl_noGrp hg, Bool.not_eq_true', beq_eq_false_iff_ne, ne_eq]
+    exact h
+  | succ f ih =>
+    intro b x h hb
+    simp only [gateDepthLe, Bool.or_eq_true, bne_iff_ne, ne_eq, List.all_eq_true] at h
+    simp only [costLe, isCtrl_noGrp hg, Bool.or_eq_true, Bool.not_eq_true', beq_eq_false_iff_ne,
+      ne_eq, Bool.and_eq_true, decide_eq_true_eq, List.all_eq_true]
+    rcases h with h | h
+    · exact Or.inl h
+    · by_cases hk : (v.dev x).kind = .gate
+      · right
+        rw [hk, csucc_gate hk]
+        refine ⟨by show 2 ≤ b; omega, fun z hz => ih _ z (h z hz) (by show 2 * f ≤ b - 2; omega)⟩
+      · exact Or.inl hk
+
+theorem gateDepthLe_of_costLe {v : World} (hg : NoGrp v) : ∀ f b x, costLe f v b x = true →
+    gateDepthLe f v x = true := by
+  intro f
+  induction f with
+  | zero =>
+    intro b x h
+    simp only [costLe, isCtrl_noGrp hg, Bool.not_eq_true', beq_eq_false_iff_ne, ne_eq] at h
+    simp only [gateDepthLe, bne_iff_ne, ne_eq]
+    exact h
+  | succ f ih =>
+    intro b x h
+    simp only [costLe, isCtrl_noGrp hg, Bool.or_eq_true, Bool.not_eq_true', beq_eq_false_iff_ne,
+      ne_eq, Bool.and_eq_true, decide_eq_true_eq, List.all_eq_true] at h
+    simp only [gateDepthLe, Bool.or_eq_true, bne_iff_ne, ne_eq, List.all_eq_true]
+    rcases h with h | h
+    · exact Or.inl h
+    · by_cases hk : (v.dev x).kind = .gate
+      · right
+        rw [csucc_gate hk] at h
+        exact fun z hz => ih _ z (h.2 z hz)
+      · exact Or.inl hk
+
+theorem cReach_eq_gReach {v : World} (hg : NoGrp v) : ∀ f y x, cReach f v y x = gReach f v y x := by
+  intro f
+  induction f with
+  | zero => intro y x; rfl
+  | succ f ih =>
+    intro y x
+    simp only [cReach, gReach, isCtrl_noGrp hg]
+    by_cases hk : (v.dev y).kind = .gate
+    · rw [csucc_gate hk]; simp only [ih]
+    · have : ((v.dev y).kind == Kind.gate) = false := by simpa using hk
+      simp only [this, Bool.false_and]
+
+theorem groupOK_noGrp {v : World} (hg : NoGrp v) (x : Nat) : GroupOK v x :=
+  ⟨fun h => absurd h (hg x).1, fun h => absurd h (hg x).1, fun h => absurd h (hg x).2.1⟩
+
+theorem noGrp_of_devs {v : World}
+    (h : ∀ d ∈ v.devs, d.kind ≠ .gpath ∧ d.kind ≠ .ginput ∧ d.kind ≠ .goutput) : NoGrp v := by
+  intro x
+  unfold World.dev
+  rw [List.getD_eq_getElem?_getD]
+  cases hp : v.devs[x]? with
+  | none => exact ⟨by decide, by decide, by decide⟩
+  | some r => exact h r (List.mem_of_getElem? hp)
+
+/-- **S1 is the machinery's scope without resource requirements, batchers, batches and groups.** -/
+theorem S1_iff (w : World) : S1 w ↔ SC w ∧ hasRes w = false ∧ NoBatch w ∧ PartsLeaf w := by
+  constructor
+  · rintro ⟨h, hp⟩
+    have hn : hasRes (sw w) = false :=
+      (hasRes_false_iff _).mpr (fun d hd => (h.devOK d hd).2.1)
+    have hk1 : ∀ d ∈ (sw w).devs, d.kind ≠ .batcher ∧ d.kind ≠ .gpath ∧ d.kind ≠ .ginput ∧
+        d.kind ≠ .goutput := by
+      intro d hd
+      have h1 := (h.devOK d hd).1
+      refine ⟨?_, ?_, ?_, ?_⟩ <;> (intro hk; rw [hk] at h1; cases h1)
+    have hg : NoGrp (sw w) := noGrp_of_devs (fun d hd => (hk1 d hd).2)
+    refine ⟨⟨fun d hd => devOKc_of_devOK (h.devOK d hd), h.wiring, h.aids, fun x hx => ?_, h.targets,
+      fun l hl op hop => opSC_of_opS1 (h.scripts l hl op hop) hn⟩, by rw [← hasRes_sw]; exact hn,
+      (noBatch_sw w).mp (fun d hd => ?_), hp⟩
+    · refine ⟨costLe_of_gateDepthLe hg _ _ x (h.gates x hx).1 (by omega), fun y hy => ?_,
+        groupOK_noGrp hg x⟩
+      rw [cReach_eq_gReach hg]; exact (h.gates x hx).2 y hy
+    · have := h.devOK d hd
+      exact ⟨(hk1 d hd).1, this.2.2.2.2.1, (hk1 d hd).2⟩
+  · rintro ⟨h, hn, hb, hp⟩
+    have hn' : hasRes (sw w) = false := by rw [hasRes_sw]; exact hn
+    have hb' := (noBatch_sw w).mpr hb
+    have hg : NoGrp (sw w) := noGrp_of_devs (fun d hd => (hb' d hd).2.2)
+    refine ⟨⟨fun d hd => ?_, h.wiring, h.aids, fun x hx => ?_, h.targets,
+      fun l hl op hop => opS1_of_opSC (h.scripts l hl op hop)⟩, hp⟩
+    · have hd' := h.devOK d hd
+      exact ⟨kindOK1_of (hb' d hd).1 (hb' d hd).2.2.1 (hb' d hd).2.2.2.1 (hb' d hd).2.2.2.2,
+        (hasRes_false_iff _).mp hn' d hd, hd'.2.2.1, hd'.2.2.2.1,
+        (hb' d hd).2.1, hd'.2.2.2.2⟩
+    · refine ⟨gateDepthLe_of_costLe hg _ _ x (h.gates x hx).1, fun y hy => ?_⟩
+      rw [← cReach_eq_gReach hg]; exact (h.gates x hx).2.1 y hy
+
+theorem S1.sc {w : World} (h : S1 w) : SC w := ((S1_iff w).mp h).1
+theorem S1.noRes {w : World} (h : S1 w) : hasRes w = false := ((S1_iff w).mp h).2.1
+theorem S1.noBatch {w : World} (h : S1 w) : NoBatch w := ((S1_iff w).mp h).2.2.1
+
+/-! ### extraction of facts from `SC` -/
+
+theorem SC.s {w : World} (h : SC w) : SCs (sw w) := h
+
 
 theorem PartsLeaf.kids {w : World} (h : PartsLeaf w) (p : Nat) : (w.part p).kids = none := by
   unfold World.part
@@ -189,42 +514,38 @@ theorem dev_mem {w : World} {x : Nat} (h : x < w.devs.length) : w.dev x ∈ w.de
   rw [List.getD_eq_getElem?_getD, List.getElem?_eq_getElem h]
   exact List.getElem_mem h
 
-theorem devOK_default : DevOK default := by decide
+theorem devOK_default : DevOKc default := by decide
 
-theorem devOK_stat1 {d : Dev} (h : DevOK (stat1 d)) : DevOK d := h
+theorem devOK_stat1 {d : Dev} (h : DevOKc (stat1 d)) : DevOKc d := h
 
-theorem S1.devOK {w : World} (h : S1 w) (x : Nat) : DevOK (w.dev x) := by
+theorem SC.devOK {w : World} (h : SC w) (x : Nat) : DevOKc (w.dev x) := by
   apply devOK_stat1
   rw [← sw_dev]
   rcases dev_mem_or_default (sw w) x with hm | hd
-  · exact h.1.devOK _ hm
+  · exact h.s.devOK _ hm
   · rw [hd]; exact devOK_default
 
-theorem S1.kindOK {w : World} (h : S1 w) (x : Nat) : kindOK (w.dev x).kind = true := (h.devOK x).1
-theorem S1.resReq {w : World} (h : S1 w) (x : Nat) : (w.dev x).resReq = none := by
-  have := (h.devOK x).2.1
-  cases hr : (w.dev x).resReq with
-  | none => rfl
-  | some r => rw [hr] at this; cases this
-theorem S1.recvPure {w : World} (h : S1 w) (x : Nat) : ∀ c ∈ (w.dev x).recvCbs, cbPure c = true :=
+theorem SC.kindOK {w : World} (h : SC w) (x : Nat) : kindOK (w.dev x).kind = true := (h.devOK x).1
+theorem SC.reqNN {w : World} (h : SC w) (x : Nat) {req : Req} (hr : (w.dev x).resReq = some req) :
+    ∀ e ∈ req, 0 ≤ e.2 := (h.devOK x).2.1 req (by rw [hr]; simp)
+theorem SC.recvPure {w : World} (h : SC w) (x : Nat) : ∀ c ∈ (w.dev x).recvCbs, cbPure c = true :=
   (h.devOK x).2.2.1
-theorem S1.finPure {w : World} (h : S1 w) (x : Nat) : ∀ c ∈ (w.dev x).finCbs, cbPure c = true :=
+theorem SC.finPure {w : World} (h : SC w) (x : Nat) : ∀ c ∈ (w.dev x).finCbs, cbPure c = true :=
   (h.devOK x).2.2.2.1
-theorem S1.genBatch {w : World} (h : S1 w) (x : Nat) : (w.dev x).genBatch = 0 := (h.devOK x).2.2.2.2.1
-theorem S1.delay {w : World} (h : S1 w) (x : Nat) (hk : (w.dev x).kind = .buffer) :
-    0 ≤ (w.dev x).delay := (h.devOK x).2.2.2.2.2.1 hk
-theorem S1.source_up {w : World} (h : S1 w) (x : Nat) (hk : (w.dev x).kind = .source) :
-    (w.dev x).up = [] := (h.devOK x).2.2.2.2.2.2 hk
+theorem SC.delay {w : World} (h : SC w) (x : Nat) (hk : (w.dev x).kind = .buffer) :
+    0 ≤ (w.dev x).delay := (h.devOK x).2.2.2.2.1 hk
+theorem SC.source_up {w : World} (h : SC w) (x : Nat) (hk : (w.dev x).kind = .source) :
+    (w.dev x).up = [] := (h.devOK x).2.2.2.2.2 hk
 
-theorem S1.up_sym {w : World} (h : S1 w) {x u : Nat} (hx : x < w.devs.length)
+theorem SC.up_sym {w : World} (h : SC w) {x u : Nat} (hx : x < w.devs.length)
     (hu : u ∈ (w.dev x).up) : u < w.devs.length ∧ x ∈ (w.dev u).down := by
-  have := (h.1.wiring x (by simpa using hx)).1 u (by rw [sw_dev]; exact hu)
+  have := (h.s.wiring x (by simpa using hx)).1 u (by rw [sw_dev]; exact hu)
   simp only [sw_dev, sw_devs_length] at this
   exact this
 
-theorem S1.down_sym {w : World} (h : S1 w) {x y : Nat} (hx : x < w.devs.length)
+theorem SC.down_sym {w : World} (h : SC w) {x y : Nat} (hx : x < w.devs.length)
     (hy : y ∈ (w.dev x).down) : y < w.devs.length ∧ x ∈ (w.dev y).up := by
-  have := (h.1.wiring x (by simpa using hx)).2 y (by rw [sw_dev]; exact hy)
+  have := (h.s.wiring x (by simpa using hx)).2 y (by rw [sw_dev]; exact hy)
   simp only [sw_dev, sw_devs_length] at this
   exact this
 
@@ -232,37 +553,60 @@ theorem dev_getElem {w : World} {x : Nat} (h : x < w.devs.length) : w.dev x = w.
   unfold World.dev
   rw [List.getD_eq_getElem?_getD, List.getElem?_eq_getElem h]; rfl
 
-theorem S1.aid_inj {w : World} (h : S1 w) {x y : Nat} (hx : x < w.devs.length)
+theorem SC.aid_inj {w : World} (h : SC w) {x y : Nat} (hx : x < w.devs.length)
     (hy : y < w.devs.length) (e : (w.dev x).aid = (w.dev y).aid) : x = y := by
   have hn : (w.devs.map (·.aid)).Nodup := by
-    have := h.1.aids
+    have := h.s.aids
     simpa [sw, List.map_map, Function.comp_def, stat1] using this
   rw [dev_getElem hx, dev_getElem hy] at e
   have := (List.getElem_inj (h₀ := by simpa using hx) (h₁ := by simpa using hy) hn).mp
     (by simpa using e)
   exact this
 
-theorem S1.depth {w : World} (h : S1 w) {x : Nat} (hx : x < w.devs.length) :
-    gateDepthLe w.devs.length w x = true := by
-  have := (h.1.gates x (by simpa using hx)).1
-  rwa [gateDepthLe_sw, sw_devs_length] at this
+theorem csucc_sw (w : World) (x : Nat) : csucc (sw w) x = csucc w x := by
+  unfold csucc groupIn groupPaths
+  simp only [sw_dev]
+  rfl
 
-theorem S1.noSelf {w : World} (h : S1 w) {x y : Nat} (hx : x < w.devs.length)
-    (hy : y ∈ (w.dev x).down) : gReach w.devs.length w y x = false := by
-  have := (h.1.gates x (by simpa using hx)).2 y (by rw [sw_dev]; exact hy)
-  rwa [gReach_sw, sw_devs_length] at this
+theorem costLe_sw (w : World) : ∀ f b g, costLe f (sw w) b g = costLe f w b g := by
+  intro f
+  induction f with
+  | zero => intro b g; simp only [costLe, sw_dev]; rfl
+  | succ f ih => intro b g; simp only [costLe, sw_dev, csucc_sw, ih]; rfl
 
-theorem S1.aid_mem {w : World} (h : S1 w) {x : Nat} (hx : x < w.devs.length) :
+theorem cReach_sw (w : World) : ∀ f y x, cReach f (sw w) y x = cReach f w y x := by
+  intro f
+  induction f with
+  | zero => intro y x; rfl
+  | succ f ih => intro y x; simp only [cReach, sw_dev, csucc_sw, ih]; rfl
+
+theorem SC.cost {w : World} (h : SC w) {x : Nat} (hx : x < w.devs.length) :
+    costLe w.devs.length w (2 * w.devs.length + 1) x = true := by
+  have := (h.s.gates x (by simpa using hx)).1
+  rwa [costLe_sw, sw_devs_length] at this
+
+theorem SC.noSelf {w : World} (h : SC w) {x y : Nat} (hx : x < w.devs.length)
+    (hy : y ∈ (w.dev x).down) : cReach w.devs.length w y x = false := by
+  have := (h.s.gates x (by simpa using hx)).2.1 y (by rw [sw_dev]; exact hy)
+  rwa [cReach_sw, sw_devs_length] at this
+
+theorem SC.groupOK {w : World} (h : SC w) {x : Nat} (hx : x < w.devs.length) : GroupOK w x := by
+  have := (h.s.gates x (by simpa using hx)).2.2
+  unfold GroupOK groupIn groupOut groupPaths at this ⊢
+  simp only [sw_dev, sw_devs_length] at this
+  exact this
+
+theorem SC.aid_mem {w : World} (h : SC w) {x : Nat} (hx : x < w.devs.length) :
     w.dev x ∈ w.devs := dev_mem hx
 
-theorem S1.target {w : World} (h : S1 w) {t : Target} (ht : t ∈ w.targets) {d : Nat}
+theorem SC.target {w : World} (h : SC w) {t : Target} (ht : t ∈ w.targets) {d : Nat}
     (hd : t.dev = some d) : (w.dev d).kind = .processor := by
-  have := h.1.targets ({ dev := t.dev } : Target) (by simp only [sw, List.mem_map]; exact ⟨t, ht, rfl⟩) d
+  have := h.s.targets ({ dev := t.dev } : Target) (by simp only [sw, List.mem_map]; exact ⟨t, ht, rfl⟩) d
     (by simp [hd])
   rw [sw_dev] at this
   exact this
 
-theorem opS1_sw {w w' : World} (e : sw w' = sw w) (op : Op) (h : OpS1 w op) : OpS1 w' op := by
+theorem opSC_sw {w w' : World} (e : sw w' = sw w) (op : Op) (h : OpSC w op) : OpSC w' op := by
   have key : ∀ a : Int, (∀ d ∈ w.devs, d.aid ≠ a) → ∀ d ∈ w'.devs, d.aid ≠ a := by
     intro a ha d hd hda
     have h1 : stat1 d ∈ (sw w').devs := by simp only [sw, List.mem_map]; exact ⟨d, hd, rfl⟩
@@ -270,20 +614,22 @@ theorem opS1_sw {w w' : World} (e : sw w' = sw w) (op : Op) (h : OpS1 w op) : Op
     simp only [sw, List.mem_map] at h1
     obtain ⟨d0, hd0, hs⟩ := h1
     exact ha d0 hd0 (by have := congrArg Dev.aid hs; simp only [stat1] at this; rw [this]; exact hda)
-  cases op <;> simp only [OpS1] at h ⊢ <;> first | exact h | exact key _ h
+  cases op <;> simp only [OpSC] at h ⊢ <;>
+    first | exact h | exact key _ h | (rw [hasRes_of_sw e]; exact h)
 
-theorem opS1_of_sw (w : World) (op : Op) (h : OpS1 (sw w) op) : OpS1 w op := by
+theorem opSC_of_sw (w : World) (op : Op) (h : OpSC (sw w) op) : OpSC w op := by
   have key : ∀ a : Int, (∀ d ∈ (sw w).devs, d.aid ≠ a) → ∀ d ∈ w.devs, d.aid ≠ a := by
     intro a ha d hd hda
     exact ha (stat1 d) (by simp only [sw, List.mem_map]; exact ⟨d, hd, rfl⟩) hda
-  cases op <;> simp only [OpS1] at h ⊢ <;> first | exact h | exact key _ h
+  cases op <;> simp only [OpSC] at h ⊢ <;>
+    first | exact h | exact key _ h | (rw [← hasRes_sw]; exact h)
 
-theorem S1.script {w : World} (h : S1 w) (k : Nat) : ∀ op ∈ w.scripts.getD k [], OpS1 w op := by
+theorem SC.script {w : World} (h : SC w) (k : Nat) : ∀ op ∈ w.scripts.getD k [], OpSC w op := by
   intro op hop
   by_cases hk : k < w.scripts.length
   · have e : w.scripts.getD k [] = w.scripts[k] := by simp [List.getD_eq_getElem?_getD, hk]
     rw [e] at hop
-    exact opS1_of_sw w op (h.1.scripts _ (List.getElem_mem hk) op hop)
+    exact opSC_of_sw w op (h.s.scripts _ (List.getElem_mem hk) op hop)
   · have e : w.scripts.getD k [] = [] := by
       simp [List.getD_eq_getElem?_getD, Nat.le_of_not_lt hk]
     rw [e] at hop; cases hop
@@ -305,13 +651,14 @@ def budgetOK (d : Dev) : Bool :=
   | some m => decide (1 ≤ m - d.produced)
 
 /-- The part the device holds and wants to hand over (finished part of an operational handler /
-processor, of a source whose budget allows; head of a buffer). -/
+processor / batcher, of a source whose budget allows; head of a buffer). -/
 def holdsD (d : Dev) : Option Nat :=
   match d.kind with
   | .source => if budgetOK d then d.output else none
   | .handler => d.output
   | .processor => if d.shutDown then none else d.output
   | .buffer => d.buf.head?.map (·.2)
+  | .batcher => d.output
   | _ => none
 
 /-- the time at which the held part may leave at the earliest, never before `now` -/
@@ -366,7 +713,8 @@ theorem holdsD_cases {d : Dev} {p : Nat} (h : holdsD d = some p) :
     (d.kind = .source ∧ budgetOK d = true ∧ d.output = some p) ∨
     (d.kind = .handler ∧ d.output = some p) ∨
     (d.kind = .processor ∧ d.shutDown = false ∧ d.output = some p) ∨
-    (d.kind = .buffer ∧ ∃ t rest, d.buf = (t, p) :: rest) := by
+    (d.kind = .buffer ∧ ∃ t rest, d.buf = (t, p) :: rest) ∨
+    (d.kind = .batcher ∧ d.output = some p) := by
   unfold holdsD at h
   cases hk : d.kind <;> simp only [hk] at h
   · left; split at h
@@ -377,7 +725,7 @@ theorem holdsD_cases {d : Dev} {p : Nat} (h : holdsD d = some p) :
     split at h
     · cases h
     · next hs => exact ⟨rfl, by simpa using hs, h⟩
-  · right; right; right
+  · right; right; right; left
     refine ⟨rfl, ?_⟩
     cases hb : d.buf with
     | nil => rw [hb] at h; cases h
@@ -386,30 +734,51 @@ theorem holdsD_cases {d : Dev} {p : Nat} (h : holdsD d = some p) :
       obtain ⟨t, q⟩ := a
       simp at h
       exact ⟨t, l, by rw [h]⟩
+  · cases h
+  · right; right; right; right; exact ⟨rfl, h⟩
   all_goals cases h
 
 theorem holdsD_opn {d : Dev} {p : Nat} (h : holdsD d = some p) : opn d = true := by
-  rcases holdsD_cases h with h | h | h | h
+  rcases holdsD_cases h with h | h | h | h | h
   · unfold opn; rw [h.1]
   · unfold opn; rw [h.1]
   · unfold opn; rw [h.1, h.2.1]; rfl
   · unfold opn; rw [h.1]
+  · unfold opn; rw [h.1]
 
 theorem holdsD_hl {d : Dev} {p : Nat} (h : holdsD d = some p) :
     isHandlerLike d.kind = true ∧ d.kind ≠ .sink := by
-  rcases holdsD_cases h with h | h | h | h <;> rw [h.1] <;> exact ⟨rfl, by decide⟩
+  rcases holdsD_cases h with h | h | h | h | h <;> rw [h.1] <;> exact ⟨rfl, by decide⟩
 
-/-- the parts a device holds (input slot, output slot, buffer) -/
-def heldL (d : Dev) : List Nat := d.part.toList ++ d.output.toList ++ d.buf.map (·.2)
+/-- the parts a device holds (input slot, output slot, buffer, batch under construction) -/
+def heldL (d : Dev) : List Nat :=
+  d.part.toList ++ d.output.toList ++ d.buf.map (·.2) ++ d.inprog.toList
 
 theorem holdsD_mem_heldL {d : Dev} {p : Nat} (h : holdsD d = some p) : p ∈ heldL d := by
   unfold heldL
-  rcases holdsD_cases h with h | h | h | h
+  rcases holdsD_cases h with h | h | h | h | h
   · simp [h.2.2]
   · simp [h.2]
   · simp [h.2.2]
   · obtain ⟨t, rest, hb⟩ := h.2
     simp [hb]
+  · simp [h.2]
+
+theorem heldL_mem (d : Dev) (q : Nat) :
+    q ∈ heldL d ↔ d.part = some q ∨ d.output = some q ∨ (∃ t, (t, q) ∈ d.buf) ∨ d.inprog = some q := by
+  unfold heldL
+  simp only [List.mem_append, Option.mem_toList, List.mem_map, Prod.exists, exists_eq_right]
+  constructor
+  · rintro (((h | h) | h) | h)
+    · exact Or.inl h
+    · exact Or.inr (Or.inl h)
+    · exact Or.inr (Or.inr (Or.inl h))
+    · exact Or.inr (Or.inr (Or.inr h))
+  · rintro (h | h | h | h)
+    · exact Or.inl (Or.inl (Or.inl h))
+    · exact Or.inl (Or.inl (Or.inr h))
+    · exact Or.inl (Or.inr h)
+    · exact Or.inr h
 
 /-- every held part exists -/
 def HeldValid (w : World) : Prop := ∀ d ∈ w.devs, ∀ p ∈ heldL d, p < w.parts.length
@@ -423,65 +792,370 @@ theorem HeldValid.dev {w : World} (h : HeldValid w) (x : Nat) : ∀ p ∈ heldL 
     have : heldL (default : Dev) = [] := rfl
     rw [this] at hp; cases hp
 
+/-- the parts of every batch exist -/
+def KidsValid (w : World) : Prop :=
+  ∀ r ∈ w.parts, ∀ l, r.kids = some l → ∀ k ∈ l, k < w.parts.length
+
+instance (w : World) : Decidable (KidsValid w) := by unfold KidsValid; infer_instance
+
+theorem KidsValid.part {w : World} (h : KidsValid w) (p : Nat) {l : List Nat}
+    (hl : (w.part p).kids = some l) : ∀ k ∈ l, k < w.parts.length := by
+  unfold World.part at hl
+  rw [List.getD_eq_getElem?_getD] at hl
+  cases hp : w.parts[p]? with
+  | none => rw [hp] at hl; cases hl
+  | some r => rw [hp] at hl; exact h r (List.mem_of_getElem? hp) l hl
+
+theorem kidsValid_of_part {w : World}
+    (h : ∀ p l, (w.part p).kids = some l → ∀ k ∈ l, k < w.parts.length) : KidsValid w := by
+  intro r hr l hl
+  obtain ⟨i, hi, rfl⟩ := List.getElem_of_mem hr
+  refine h i l ?_
+  unfold World.part
+  rw [List.getD_eq_getElem?_getD, List.getElem?_eq_getElem hi]
+  exact hl
+
+/-- the entries of the parts' group-path stacks -/
+def StkP (w : World) : Prop := ∀ r ∈ w.parts, ∀ g ∈ r.stack, (w.dev g).kind = .gpath
+
+/-- every entry of a group-path stack is a group path — required only if there is a group output
+(nobody else reads the stacks) -/
+def StkOK (w : World) : Prop := (∀ x, (w.dev x).kind ≠ .goutput) ∨ StkP w
+
+theorem StkP.part {w : World} (h : StkP w) (p : Nat) : ∀ g ∈ (w.part p).stack, (w.dev g).kind = .gpath := by
+  unfold World.part
+  rw [List.getD_eq_getElem?_getD]
+  cases hp : w.parts[p]? with
+  | none => intro g hg; cases hg
+  | some r => exact h r (List.mem_of_getElem? hp)
+
+theorem StkOK.part {w : World} (h : StkOK w) (p : Nat) :
+    (∀ x, (w.dev x).kind ≠ .goutput) ∨ ∀ g ∈ (w.part p).stack, (w.dev g).kind = .gpath :=
+  h.imp id (fun h2 => h2.part p)
+
+theorem StkOK.top {w : World} (h : StkOK w) {y : Nat} (hy : (w.dev y).kind = .goutput) (p : Nat) :
+    ∀ g ∈ (w.part p).stack, (w.dev g).kind = .gpath := by
+  rcases h with h | h
+  · exact absurd hy (h y)
+  · exact h.part p
+
+theorem stkP_of_part {w : World}
+    (h : ∀ p, ∀ g ∈ (w.part p).stack, (w.dev g).kind = .gpath) : StkP w := by
+  intro r hr g hg
+  obtain ⟨i, hi, rfl⟩ := List.getElem_of_mem hr
+  refine h i g ?_
+  unfold World.part
+  rw [List.getD_eq_getElem?_getD, List.getElem?_eq_getElem hi]
+  exact hg
+
+theorem stkOK_of_part {w : World}
+    (h : ∀ p, ∀ g ∈ (w.part p).stack, (w.dev g).kind = .gpath) : StkOK w := Or.inr (stkP_of_part h)
+
+/-- the general frame lemma: kinds unchanged, the stacks' entries still group paths -/
+theorem StkOK.map {w w' : World} (h : StkOK w) (hk : ∀ d, (w'.dev d).kind = (w.dev d).kind)
+    (hp : (∀ p, ∀ g ∈ (w.part p).stack, (w.dev g).kind = .gpath) →
+      ∀ p, ∀ g ∈ (w'.part p).stack, (w.dev g).kind = .gpath) : StkOK w' := by
+  rcases h with h | h
+  · exact Or.inl (fun x => by rw [hk]; exact h x)
+  · exact stkOK_of_part (fun q g hg => by rw [hk]; exact hp (fun q => h.part q) q g hg)
+
 /-! ### the acceptance predicate -/
 
-/-- `_can_accept_part` (state part) as a function of the device, for single parts. -/
-def accB (d : Dev) : Bool :=
+/-- `_can_accept_part` (state part) as a function of the device and of the number `n` of parts the
+offered part consists of (`leafCount`: 1 for a single part, the number of parts of a batch). -/
+def accB0 (n : Nat) (d : Dev) : Bool :=
   match d.kind with
   | .buffer =>
-    (match d.cap with | none => true | some c => decide (d.level + 1 ≤ c)) &&
+    (match d.cap with | none => true | some c => decide (d.level + n ≤ c) && decide (d.level < c)) &&
       opn d && !d.blockInput && d.part.isNone && d.output.isNone
   | .source | .handler | .processor | .batcher | .sink =>
     opn d && !d.blockInput && d.part.isNone && d.output.isNone
   | _ => opn d && !d.blockInput
 
-theorem canAcceptBasic_eq {w : World} (h : PartsLeaf w) (x p : Nat) :
-    w.canAcceptBasic x p = accB (w.dev x) := by
-  unfold canAcceptBasic accB
-  simp only [operational_eq, h.leafCount]
-  cases (w.dev x).kind <;> try rfl
-  cases (w.dev x).cap with
-  | none => rfl
-  | some c =>
-    have : (decide ((w.dev x).level + 1 ≤ c) && decide ((w.dev x).level < c))
-        = decide ((w.dev x).level + 1 ≤ c) := by
-      by_cases hc : (w.dev x).level + 1 ≤ c
-      · have : (w.dev x).level < c := by omega
-        simp [hc, this]
-      · simp [hc]
-    simp only [this]
+/-- The resource side of a processor as the invariant sees it: a processor that declares a
+requirement, holds no reservation and is REGISTERED with the resource manager (`waitingRes`) counts
+as refusing — the manager owes it a call-back. -/
+def procM (d : Dev) : Bool :=
+  match d.kind, d.resReq with
+  | .processor, some _ => d.reserved.isSome || !d.waitingRes
+  | _, _ => true
+
+/-- acceptance as the invariant sees it, as a function of the device -/
+def accB (n : Nat) (d : Dev) : Bool := accB0 n d && procM d
+
+/-- acceptance as the invariant sees it -/
+def accM (w : World) (x p : Nat) : Bool := w.canAcceptBasic x p && procM (w.dev x)
+
+theorem canAcceptBasic_eq (w : World) (x p : Nat) :
+    w.canAcceptBasic x p = accB0 (w.leafCount p) (w.dev x) := by
+  unfold canAcceptBasic accB0
+  simp only [operational_eq]
+  cases (w.dev x).kind <;> rfl
+
+theorem accM_eq (w : World) (x p : Nat) : accM w x p = accB (w.leafCount p) (w.dev x) := by
+  unfold accM accB; rw [canAcceptBasic_eq]
+
+/-- what the acceptance predicates read of a part: quality, value, number of parts, group-path
+stack -/
+def attrs (w : World) (p : Nat) : Int × Int × Nat × List Nat :=
+  ((w.part p).quality, w.partValue p, w.leafCount p, (w.part p).stack)
+
+theorem gatePred_attrs {w w' : World} {p : Nat} (h : attrs w' p = attrs w p) (pr : Pred) :
+    w'.gatePred pr p = w.gatePred pr p := by
+  have h1 : (w'.part p).quality = (w.part p).quality := congrArg (·.1) h
+  have h2 : w'.partValue p = w.partValue p := congrArg (·.2.1) h
+  unfold gatePred
+  simp only [h1, h2]
+
+theorem leafCount_attrs {w w' : World} {p : Nat} (h : attrs w' p = attrs w p) :
+    w'.leafCount p = w.leafCount p := congrArg (·.2.2.1) h
+
+theorem stack_attrs {w w' : World} {p : Nat} (h : attrs w' p = attrs w p) :
+    (w'.part p).stack = (w.part p).stack := congrArg (·.2.2.2) h
+
+/-- The resource part of `PartProcessor._can_accept_part`, computed without changing anything: no
+requirement, or a reservation is held already, or the request can be served now. -/
+def procReal (w : World) (x : Nat) : Bool :=
+  match (w.dev x).resReq with
+  | none => true
+  | some req =>
+    (w.dev x).reserved.isSome ||
+      (!(req.any (fun e => e.2 < 0)) && w.rm.canFulfill (req.filter (fun e => e.2 > 0)))
+
+/-- The Boolean answer `give` would return for a part whose group-path stack is `stk`, computed
+without changing anything (a processor with a resource requirement answers what its attempt to
+acquire would answer; a group path pushes itself, a group output pops the innermost path and
+offers the part to that path's downstream neighbours). -/
+def wouldAcceptT : Nat → World → Nat → Nat → List Nat → Bool
+  | 0, _, _, _, _ => false
+  | f + 1, w, x, p, stk =>
+    match (w.dev x).kind with
+    | .source | .handler | .buffer | .batcher | .sink => w.canAcceptBasic x p
+    | .processor => w.canAcceptBasic x p && procReal w x
+    | .gate =>
+      w.gatePred (w.dev x).pred p && w.canAcceptBasic x p &&
+        (w.dev x).down.any (fun y => wouldAcceptT f w y p stk)
+    | .ginput => w.canAcceptBasic x p && (w.dev x).down.any (fun y => wouldAcceptT f w y p stk)
+    | .gpath => !(w.dev x).blockInput && wouldAcceptT f w (groupIn w x) p (stk ++ [x])
+    | .goutput =>
+      match stk.getLast? with
+      | none => false
+      | some g => (w.dev g).down.any (fun y => wouldAcceptT f w y p stk.dropLast)
 
 /-- **wouldAccept**: the Boolean answer `give` would return, computed without changing anything. -/
-def wouldAccept : Nat → World → Nat → Nat → Bool
-  | 0, _, _, _ => false
-  | f + 1, w, x, p =>
-    match (w.dev x).kind with
-    | .source | .handler | .processor | .buffer | .batcher | .sink => w.canAcceptBasic x p
-    | .gate =>
-      w.gatePred (w.dev x).pred p && w.canAcceptBasic x p &&
-        (w.dev x).down.any (fun y => wouldAccept f w y p)
-    | _ => false
+def wouldAccept (f : Nat) (w : World) (x p : Nat) : Bool := wouldAcceptT f w x p (w.part p).stack
 
-/-- `wouldAccept` with the devices of `N` counted as refusing. -/
-def wouldAcceptN : Nat → World → List Nat → Nat → Nat → Bool
-  | 0, _, _, _, _ => false
-  | f + 1, w, N, x, p =>
-    if N.contains x then false
+/-- Acceptance as the invariant sees it (registered processors refuse; a group output passes a part
+on only if the innermost group path on its stack is a path of that output's group), with the
+devices of `N` counted as refusing (their notification is pending; a group output has no acceptance
+state of its own and is never masked) and the devices of `A` counted as willing (they have just
+notified upstream, whatever their state). -/
+def wouldAcceptS : Nat → World → List Nat → List Nat → Nat → Nat → List Nat → Bool
+  | 0, _, _, _, _, _, _ => false
+  | f + 1, w, N, A, x, p, stk =>
+    if N.contains x && (w.dev x).kind != .goutput then false
     else match (w.dev x).kind with
-    | .source | .handler | .processor | .buffer | .batcher | .sink => w.canAcceptBasic x p
+    | .source | .handler | .processor | .buffer | .batcher | .sink => A.contains x || accM w x p
     | .gate =>
-      w.gatePred (w.dev x).pred p && w.canAcceptBasic x p &&
-        (w.dev x).down.any (fun y => wouldAcceptN f w N y p)
-    | _ => false
+      w.gatePred (w.dev x).pred p && (A.contains x || accM w x p) &&
+        (w.dev x).down.any (fun y => wouldAcceptS f w N A y p stk)
+    | .ginput =>
+      (A.contains x || accM w x p) && (w.dev x).down.any (fun y => wouldAcceptS f w N A y p stk)
+    | .gpath => (A.contains x || accM w x p) && wouldAcceptS f w N A (groupIn w x) p (stk ++ [x])
+    | .goutput =>
+      match stk.getLast? with
+      | none => false
+      | some g =>
+        ((w.dev g).kind == .gpath && groupOut w g == x) &&
+          (w.dev g).down.any (fun y => wouldAcceptS f w N A y p stk.dropLast)
 
-theorem wouldAcceptN_nil (f : Nat) (w : World) (x p : Nat) :
-    wouldAcceptN f w [] x p = wouldAccept f w x p := by
+def wouldAcceptN (f : Nat) (w : World) (N A : List Nat) (x p : Nat) : Bool :=
+  wouldAcceptS f w N A x p (w.part p).stack
+
+/-- **wouldAcceptR**: as `wouldAccept`, but a processor that is registered with the resource
+manager (waiting for its call-back) counts as refusing, and a group output whose group does not
+own the innermost group path of the part counts as refusing. -/
+def wouldAcceptR (f : Nat) (w : World) (x p : Nat) : Bool := wouldAcceptN f w [] [] x p
+
+/-- every group output an offer to `x` (for a part with stack `stk`) can reach is the output of the
+group of the innermost group path at that point -/
+def consS : Nat → World → Nat → List Nat → Bool
+  | 0, _, _, _ => true
+  | f + 1, w, x, stk =>
+    match (w.dev x).kind with
+    | .gate | .ginput => (w.dev x).down.all (fun y => consS f w y stk)
+    | .gpath => consS f w (groupIn w x) (stk ++ [x])
+    | .goutput =>
+      match stk.getLast? with
+      | none => true
+      | some g =>
+        ((w.dev g).kind == .gpath && groupOut w g == x) &&
+          (w.dev g).down.all (fun y => consS f w y stk.dropLast)
+    | _ => true
+
+theorem procM_of_noRes {w : World} (h : hasRes w = false) (x : Nat) : procM (w.dev x) = true := by
+  have hr : (w.dev x).resReq = none := by
+    rcases dev_mem_or_default w x with hm | hd
+    · have := (hasRes_false_iff w).mp h _ hm
+      cases hq : (w.dev x).resReq with
+      | none => rfl
+      | some r => rw [hq] at this; cases this
+    · rw [hd]; rfl
+  unfold procM; rw [hr]
+  cases (w.dev x).kind <;> rfl
+
+theorem procReal_of_noRes {w : World} (h : hasRes w = false) (x : Nat) : procReal w x = true := by
+  have hr : (w.dev x).resReq = none := by
+    rcases dev_mem_or_default w x with hm | hd
+    · have := (hasRes_false_iff w).mp h _ hm
+      cases hq : (w.dev x).resReq with
+      | none => rfl
+      | some r => rw [hq] at this; cases this
+    · rw [hd]; rfl
+  unfold procReal; rw [hr]
+
+theorem canAcceptBasic_ctrl {w : World} {x p : Nat}
+    (hk : isHandlerLike (w.dev x).kind = false) :
+    w.canAcceptBasic x p = !(w.dev x).blockInput := by
+  unfold canAcceptBasic operational
+  cases hkk : (w.dev x).kind <;> simp_all [isHandlerLike]
+
+theorem accM_ctrl {w : World} {x p : Nat} (hk : isHandlerLike (w.dev x).kind = false) :
+    accM w x p = w.canAcceptBasic x p := by
+  unfold accM procM
+  cases hkk : (w.dev x).kind <;> simp_all [isHandlerLike]
+
+/-- **Registered processors and foreign group paths aside, `wouldAcceptR` is `wouldAccept`**: if
+every processor that the invariant counts as refusing for want of resources really cannot get them
+now, and every group output the offer can reach owns the innermost group path, then whoever
+refuses in the invariant's sense refuses. -/
+theorem wouldAcceptT_of_S {w : World} {p : Nat}
+    (hreg : ∀ y, (w.dev y).kind = .processor → procM (w.dev y) = false → procReal w y = false) :
+    ∀ f x stk, consS f w x stk = true → wouldAcceptS f w [] [] x p stk = false →
+      wouldAcceptT f w x p stk = false := by
+  intro f
+  induction f with
+  | zero => intro x stk _ _; rfl
+  | succ f ih =>
+    intro x stk hc h
+    unfold wouldAcceptS at h
+    unfold consS at hc
+    unfold wouldAcceptT
+    simp only [List.contains_nil, Bool.false_and, Bool.false_eq_true, if_false, Bool.false_or] at h
+    cases hk : (w.dev x).kind <;> simp only [hk] at h hc ⊢
+    case processor =>
+      unfold accM at h
+      cases hcb : w.canAcceptBasic x p with
+      | false => rfl
+      | true =>
+        rw [hcb, Bool.true_and] at h
+        rw [hreg x hk h]; rfl
+    case gate =>
+      rw [accM_ctrl (by rw [hk]; rfl)] at h
+      cases hg : w.gatePred (w.dev x).pred p with
+      | false => rfl
+      | true =>
+        cases hcb : w.canAcceptBasic x p with
+        | false => rfl
+        | true =>
+          rw [hg, hcb, Bool.true_and, Bool.true_and] at h
+          simp only [Bool.true_and]
+          rw [List.any_eq_false] at h ⊢
+          rw [List.all_eq_true] at hc
+          intro y hy
+          have := h y hy
+          simp only [Bool.not_eq_true] at this ⊢
+          exact ih y stk (hc y hy) this
+    case ginput =>
+      rw [accM_ctrl (by rw [hk]; rfl)] at h
+      cases hcb : w.canAcceptBasic x p with
+      | false => rfl
+      | true =>
+        rw [hcb, Bool.true_and] at h
+        simp only [Bool.true_and]
+        rw [List.any_eq_false] at h ⊢
+        rw [List.all_eq_true] at hc
+        intro y hy
+        have := h y hy
+        simp only [Bool.not_eq_true] at this ⊢
+        exact ih y stk (hc y hy) this
+    case gpath =>
+      rw [accM_ctrl (by rw [hk]; rfl), canAcceptBasic_ctrl (by rw [hk]; rfl)] at h
+      cases hb : (w.dev x).blockInput with
+      | true => rfl
+      | false =>
+        rw [hb] at h
+        simp only [Bool.not_false, Bool.true_and] at h ⊢
+        exact ih _ _ hc h
+    case goutput =>
+      cases hl : stk.getLast? with
+      | none => rfl
+      | some g =>
+        simp only [hl, Bool.and_eq_true, List.all_eq_true] at h hc ⊢
+        rw [hc.1.1, hc.1.2, Bool.true_and, Bool.true_and] at h
+        rw [List.any_eq_false] at h ⊢
+        intro y hy
+        have := h y hy
+        simp only [Bool.not_eq_true] at this ⊢
+        exact ih y _ (hc.2 y hy) this
+    all_goals first
+      | rfl
+      | (unfold accM at h
+         have hp : procM (w.dev x) = true := by unfold procM; rw [hk]
+         rw [hp, Bool.and_true] at h
+         exact h)
+
+/-- without resource requirements and group devices the two predicates coincide -/
+theorem wouldAcceptS_nil {w : World} (h : hasRes w = false) (hg : NoGrp w) (f : Nat) (x p : Nat)
+    (stk : List Nat) : wouldAcceptS f w [] [] x p stk = wouldAcceptT f w x p stk := by
   induction f generalizing x with
   | zero => rfl
   | succ f ih =>
-    unfold wouldAcceptN wouldAccept
-    simp only [List.contains_nil, Bool.false_eq_true, if_false]
-    simp only [ih]
+    unfold wouldAcceptS wouldAcceptT
+    simp only [List.contains_nil, Bool.false_and, Bool.false_eq_true, if_false, Bool.false_or]
+    simp only [ih, accM, procM_of_noRes h, procReal_of_noRes h, Bool.and_true]
+    have := hg x
+    cases hk : (w.dev x).kind <;> simp_all
+
+theorem wouldAcceptN_nil {w : World} (h : hasRes w = false) (hg : NoGrp w) (f : Nat) (x p : Nat) :
+    wouldAcceptN f w [] [] x p = wouldAccept f w x p :=
+  wouldAcceptS_nil h hg f x p _
+
+/-! ### registration with the resource manager -/
+
+/-- Every waiting request is a processor's, and every processor flagged `waitingRes` is registered
+with the request it declares. -/
+def Reg (w : World) : Prop :=
+  (∀ e ∈ w.rm.waiting, ∃ x, e.2 = Cb.proc x) ∧
+  ∀ x, (w.dev x).waitingRes = true →
+    ∃ req, (w.dev x).resReq = some req ∧ (req, Cb.proc x) ∈ w.rm.waiting
+
+/-- No device declares a requirement, or `Reg`. -/
+def WR (w : World) : Prop := hasRes w = false ∨ Reg w
+
+theorem WR.frame {w w' : World} (h : WR w) (hsw : sw w' = sw w)
+    (hold : ∀ e ∈ w.rm.waiting, e ∈ w'.rm.waiting)
+    (hnew : ∀ e ∈ w'.rm.waiting, e ∈ w.rm.waiting ∨ ∃ x, e.2 = Cb.proc x)
+    (hfl : ∀ x, (w'.dev x).waitingRes = true → (w.dev x).waitingRes = true ∨
+      ∃ req, (w'.dev x).resReq = some req ∧ (req, Cb.proc x) ∈ w'.rm.waiting) : WR w' := by
+  rcases h with h | h
+  · left; rw [hasRes_of_sw hsw]; exact h
+  · right
+    refine ⟨fun e he => ?_, fun x hx => ?_⟩
+    · rcases hnew e he with h1 | h1
+      · exact h.1 e h1
+      · exact h1
+    · rcases hfl x hx with h1 | h1
+      · obtain ⟨req, hr, hm⟩ := h.2 x h1
+        exact ⟨req, by rw [sw_resReq hsw]; exact hr, hold _ hm⟩
+      · exact h1
+
+/-- same waiting list, no new flag -/
+theorem WR.same {w w' : World} (h : WR w) (hsw : sw w' = sw w)
+    (hrm : w'.rm.waiting = w.rm.waiting)
+    (hfl : ∀ x, (w'.dev x).waitingRes = true → (w.dev x).waitingRes = true) : WR w' :=
+  h.frame hsw (by rw [hrm]; exact fun _ h => h) (by rw [hrm]; exact fun _ h => Or.inl h)
+    (fun x hx => Or.inl (hfl x hx))
 
 /-! ### the invariant -/
 
@@ -493,30 +1167,37 @@ def Att (w : World) (d : Nat) : Prop :=
 
 instance (w : World) (d : Nat) : Decidable (Att w d) := by unfold Att; infer_instance
 
-/-- `d` is flagged and no downstream device (ignoring those of `N`) would accept `p`. -/
-def Blocked (w : World) (N : List Nat) (d p : Nat) : Prop :=
-  (w.dev d).waitingDS = true ∧ ∀ y ∈ (w.dev d).down, wouldAcceptN w.fuel w N y p = false
+/-- `d` is flagged and no downstream device would accept `p` (those of `N` counted as refusing,
+those of `A` as willing). -/
+def Blocked (w : World) (N A : List Nat) (d p : Nat) : Prop :=
+  (w.dev d).waitingDS = true ∧ ∀ y ∈ (w.dev d).down, wouldAcceptN w.fuel w N A y p = false
 
-instance (w : World) (N : List Nat) (d p : Nat) : Decidable (Blocked w N d p) := by
+instance (w : World) (N A : List Nat) (d p : Nat) : Decidable (Blocked w N A d p) := by
   unfold Blocked; infer_instance
 
 /-- The wake-up invariant, generalised: devices of `E` are exempt (their status is being
-recomputed), devices of `N` have a notification pending. -/
-def WakeG (E N : List Nat) (w : World) : Prop :=
-  ∀ d p, holdsD (w.dev d) = some p → d ∉ E → Att w d ∨ Blocked w N d p
+recomputed), devices of `N` have a notification pending, devices of `A` have just notified
+upstream. -/
+def WakeG (E N A : List Nat) (w : World) : Prop :=
+  ∀ d p, holdsD (w.dev d) = some p → d ∉ E → Att w d ∨ Blocked w N A d p
 
 /-- no queued or paused failure targets a device that is not a processor -/
 def EvOK (w : World) : Prop :=
   ∀ n ∈ C02V.acts w.env, ∀ d, Action.ofNat n = .fail d → (w.dev d).kind = .processor
 
 /-- Everything the induction carries. -/
-structure G (E N : List Nat) (w : World) : Prop where
-  s1 : S1 w
+structure G (E N A : List Nat) (w : World) : Prop where
+  sc : SC w
+  pl : NoBatch w → PartsLeaf w
   inv : C01.Inv w.env
   now0 : 0 ≤ w.now
   ev : EvOK w
   valid : HeldValid w
-  wake : WakeG E N w
+  kv : KidsValid w
+  stk : StkOK w
+  wr : WR w
+  aok : ∀ x ∈ A, (w.dev x).kind = .batcher
+  wake : WakeG E N A w
 
 end C03W
 end SimProc
